@@ -284,6 +284,11 @@ def label_reorderings(cls_node):
     for c in ast.walk(cls_node):
         if isinstance(c, ast.Call) and isinstance(c.func, ast.Attribute) and c.func.attr in REORDERERS:
             out.append((c, norm_text(c)[:70]))
+        # `<index>.levels[...]`: the categories of a MultiIndex level are kept SORTED by pandas - not the labels in their order of
+        # appearance, which is what `get_level_values(...).unique()` gives
+        if isinstance(c, ast.Attribute) and c.attr == "levels" and isinstance(c.ctx, ast.Load) and \
+                isinstance(getattr(c, "_parent", None), ast.Subscript):
+            out.append((c, norm_text(c._parent)[:70] + " (sorted categories of the level)"))
     return out
 
 
